@@ -53,11 +53,24 @@ def drivers(tier):
             coarse=False),
             dict(max_states=600000, time_budget=1200))
         d['callback-disables'] = (WorldDriver(
-            'callback-disables', own='L', types=('H', 'HZ', 'HY'),
+            'callback-disables', own='L', types=('H', 'HZ'), ids=(1, 2),
+            explicit_ids=(1,), max_autos=1, toggles=True, max_postponed=2,
+            shapes=((), ('H',), ('HZ',), ('H', 'HZ'), ('HZ', 'H')),
+            coarse=False),
+            dict(max_states=600000, time_budget=1200))
+        d['callback-disables-on-add'] = (WorldDriver(
+            'callback-disables-on-add', own='L', types=('H', 'HY'),
             ids=(1, 2), explicit_ids=(1,), max_autos=1, toggles=True,
             max_postponed=2,
+            shapes=((), ('H',), ('HY',), ('H', 'HY'), ('HY', 'H')),
+            coarse=False),
+            dict(max_states=600000, time_budget=1200))
+        d['callback-disables-both'] = (WorldDriver(
+            'callback-disables-both', own='L', types=('H', 'HZ', 'HY'),
+            ids=(1,), explicit_ids=(1,), max_autos=1, toggles=True,
+            max_postponed=2,
             shapes=((), ('H',), ('HZ',), ('H', 'HZ'), ('HZ', 'H'), ('HY',),
-                    ('H', 'HY'), ('HY', 'H')),
+                    ('H', 'HY'), ('HY', 'H'), ('HY', 'HZ')),
             coarse=False),
             dict(max_states=600000, time_budget=1200))
         d['toggle-fixpoint'] = (WorldDriver(
